@@ -1,6 +1,7 @@
-(* The decode stage (yaml.v2 + mapstructure typing rules as re-stated in Decode.v) panics only on a
-   non-string key of a mapping decoded into a nested struct (F13g): a tree whose mappings all have string
-   keys is never a Panic of `decode`. *)
+(* The decode stage (yaml.v2 + mapstructure typing rules as re-stated in Decode.v, plus the two checks the
+   loader adds since fixes e67ca4a and c021988): it never panics, and every definition it lets through is
+   free of null elements - the premise of Proofs.build_no_panic.
+   (Before fix e67ca4a a non-string key of a mapping decoded into a nested struct was a Panic of `decode`.) *)
 From Coq Require Import List ZArith String Ascii Bool Arith.
 Import ListNotations.
 From BD.Loader Require Import Str Model Decode.
@@ -21,112 +22,96 @@ Lemma dec_string_np : forall v, dec_string v <> Panic. Proof. destruct v; discri
 Lemma dec_int_np : forall v, dec_int v <> Panic. Proof. destruct v; discriminate. Qed.
 Lemma dec_bool_np : forall v, dec_bool v <> Panic. Proof. destruct v; discriminate. Qed.
 
-Notation aks := all_keys_strings.
-
-Lemma dec_list_np : forall A (f : yv -> res A) v,
-  (forall x, aks x = true -> f x <> Panic) -> aks v = true -> dec_list f v <> Panic.
+Lemma dec_list_np : forall A (f : yv -> res A) v, (forall x, f x <> Panic) -> dec_list f v <> Panic.
 Proof.
-  intros A f v Hf Hv. destruct v; simpl; try discriminate. apply rall_np.
-  simpl in Hv. induction l as [|x l IH]; simpl; constructor.
-  - apply Hf. simpl in Hv. apply andb_true_iff in Hv as [H _]; exact H.
-  - apply IH. simpl in Hv. apply andb_true_iff in Hv as [_ H]; exact H.
+  intros A f v Hf. destruct v; simpl; try discriminate. apply rall_np.
+  induction l as [|x l IH]; simpl; constructor; auto.
 Qed.
-Lemma dec_ptr_np : forall A (f : yv -> res A) v,
-  (forall x, aks x = true -> f x <> Panic) -> aks v = true -> dec_ptr f v <> Panic.
-Proof. intros A f v Hf Hv. destruct v; simpl; try discriminate; apply rmap_np, Hf, Hv. Qed.
+Lemma dec_ptr_np : forall A (f : yv -> res A) v, (forall x, f x <> Panic) -> dec_ptr f v <> Panic.
+Proof. intros A f v Hf. destruct v; simpl; try discriminate; apply rmap_np, Hf. Qed.
 
-Lemma lower_keys_strs : forall m, forallb (fun kv => is_vstr (fst kv) && aks (snd kv)) m = true ->
-  forallb (fun kv : yv * yv => is_vstr (fst kv)) (lower_keys m) = true.
-Proof.
-  induction m as [|[k v] m IH]; simpl; intros H; [reflexivity|].
-  apply andb_true_iff in H as [H1 H2]. apply andb_true_iff in H1 as [Hk _].
-  rewrite (IH H2). destruct k; simpl in *; try discriminate. reflexivity.
-Qed.
-
-Lemma keys_check_np : forall nested fields m, aks (VMap m) = true -> keys_check nested fields (lower_keys m) <> Panic.
-Proof.
-  intros nested fields m H. unfold keys_check. simpl in H. rewrite (lower_keys_strs m H).
-  simpl. rewrite andb_false_r. destruct (_ && _); discriminate.
-Qed.
-
-Lemma field_aks : forall m name, aks (VMap m) = true -> aks (field (lower_keys m) name) = true.
-Proof.
-  intros m name. unfold field. induction m as [|[k v] m IH]; simpl; intros H; [reflexivity|].
-  apply andb_true_iff in H as [H1 H2]. apply andb_true_iff in H1 as [_ Hv].
-  destruct (key_is name _); simpl; [exact Hv | apply IH, H2].
-Qed.
+Lemma keys_check_np : forall nested fields m, keys_check nested fields m <> Panic.
+Proof. intros. unfold keys_check. destruct (_ && negb _); [discriminate|]. destruct (_ && _); discriminate. Qed.
 
 Lemma dec_struct_np : forall A nested fields (zero : A) body v,
-  aks v = true -> (forall m, (forall n, aks (field m n) = true) -> body m <> Panic) ->
-  dec_struct nested fields zero body v <> Panic.
+  (forall m, body m <> Panic) -> dec_struct nested fields zero body v <> Panic.
 Proof.
-  intros A nested fields zero body v Hv Hb. destruct v; simpl; try discriminate.
-  apply rmap_np, rpair_np; [apply keys_check_np, Hv|]. apply Hb. intros n. apply field_aks, Hv.
+  intros A nested fields zero body v Hb. destruct v; simpl; try discriminate.
+  apply rmap_np, rpair_np; [apply keys_check_np | apply Hb].
 Qed.
 
-Ltac fields_np Hm :=
+Ltac fields_np :=
   repeat (apply rpair_np || apply rmap_np);
   try apply dec_string_np; try apply dec_int_np; try apply dec_bool_np.
 
-Lemma dec_conditionDef_np : forall v, aks v = true -> dec_conditionDef v <> Panic.
-Proof. intros v H. apply dec_struct_np; [exact H|]. intros m Hm. fields_np Hm. Qed.
-Lemma dec_funcDef_np : forall v, aks v = true -> dec_funcDef v <> Panic.
-Proof. intros v H. apply dec_struct_np; [exact H|]. intros m Hm. fields_np Hm. Qed.
+Lemma dec_conditionDef_np : forall v, dec_conditionDef v <> Panic.
+Proof. intros v. apply dec_struct_np. intros m. fields_np. Qed.
+Lemma dec_funcDef_np : forall v, dec_funcDef v <> Panic.
+Proof. intros v. apply dec_struct_np. intros m. fields_np. Qed.
 Lemma dec_args_entries_np : forall m, dec_args_entries m <> Panic.
 Proof. induction m as [|[k v] m IH]; simpl; [discriminate|]. destruct k; try discriminate; apply rmap_np, IH. Qed.
 Lemma dec_args_np : forall v, dec_args v <> Panic.
 Proof. destruct v; simpl; try discriminate. apply dec_args_entries_np. Qed.
-Lemma dec_callFuncDef_np : forall v, aks v = true -> dec_callFuncDef v <> Panic.
-Proof. intros v H. apply dec_struct_np; [exact H|]. intros m Hm. fields_np Hm. apply dec_args_np. Qed.
-Lemma dec_continueOn_np : forall v, aks v = true -> dec_continueOn v <> Panic.
-Proof. intros v H. apply dec_struct_np; [exact H|]. intros m Hm. fields_np Hm. Qed.
-Lemma dec_repeatPolicy_np : forall v, aks v = true -> dec_repeatPolicy v <> Panic.
-Proof. intros v H. apply dec_struct_np; [exact H|]. intros m Hm. fields_np Hm. Qed.
-Lemma dec_retryPolicy_np : forall v, aks v = true -> dec_retryPolicy v <> Panic.
-Proof. intros v H. apply dec_struct_np; [exact H|]. intros m Hm. fields_np Hm. Qed.
-Lemma dec_smtp_np : forall v, aks v = true -> dec_smtp v <> Panic.
-Proof. intros v H. apply dec_struct_np; [exact H|]. intros m Hm. fields_np Hm. Qed.
-Lemma dec_mailConfig_np : forall v, aks v = true -> dec_mailConfig v <> Panic.
-Proof. intros v H. apply dec_struct_np; [exact H|]. intros m Hm. fields_np Hm. Qed.
-Lemma dec_mailOn_np : forall v, aks v = true -> dec_mailOn v <> Panic.
-Proof. intros v H. apply dec_struct_np; [exact H|]. intros m Hm. fields_np Hm. Qed.
+Lemma dec_callFuncDef_np : forall v, dec_callFuncDef v <> Panic.
+Proof. intros v. apply dec_struct_np. intros m. fields_np. apply dec_args_np. Qed.
+Lemma dec_continueOn_np : forall v, dec_continueOn v <> Panic.
+Proof. intros v. apply dec_struct_np. intros m. fields_np. Qed.
+Lemma dec_repeatPolicy_np : forall v, dec_repeatPolicy v <> Panic.
+Proof. intros v. apply dec_struct_np. intros m. fields_np. Qed.
+Lemma dec_retryPolicy_np : forall v, dec_retryPolicy v <> Panic.
+Proof. intros v. apply dec_struct_np. intros m. fields_np. Qed.
+Lemma dec_smtp_np : forall v, dec_smtp v <> Panic.
+Proof. intros v. apply dec_struct_np. intros m. fields_np. Qed.
+Lemma dec_mailConfig_np : forall v, dec_mailConfig v <> Panic.
+Proof. intros v. apply dec_struct_np. intros m. fields_np. Qed.
+Lemma dec_mailOn_np : forall v, dec_mailOn v <> Panic.
+Proof. intros v. apply dec_struct_np. intros m. fields_np. Qed.
 
-Lemma dec_stepDef_np : forall v, aks v = true -> dec_stepDef v <> Panic.
+Lemma dec_stepDef_np : forall v, dec_stepDef v <> Panic.
 Proof.
-  intros v H. apply dec_struct_np; [exact H|]. intros m Hm. fields_np Hm.
-  - apply dec_list_np; [intros; apply dec_string_np | apply Hm].
-  - apply dec_ptr_np; [apply dec_continueOn_np | apply Hm].
-  - apply dec_ptr_np; [apply dec_retryPolicy_np | apply Hm].
-  - apply dec_ptr_np; [apply dec_repeatPolicy_np | apply Hm].
-  - apply dec_list_np; [|apply Hm]. intros x Hx. apply dec_ptr_np; [apply dec_conditionDef_np | exact Hx].
-  - apply dec_ptr_np; [intros; apply dec_string_np | apply Hm].
-  - apply dec_ptr_np; [apply dec_callFuncDef_np | apply Hm].
+  intros v. apply dec_struct_np. intros m. fields_np.
+  - apply dec_list_np. apply dec_string_np.
+  - apply dec_ptr_np, dec_continueOn_np.
+  - apply dec_ptr_np, dec_retryPolicy_np.
+  - apply dec_ptr_np, dec_repeatPolicy_np.
+  - apply dec_list_np. intros x. apply dec_ptr_np, dec_conditionDef_np.
+  - apply dec_ptr_np, dec_string_np.
+  - apply dec_ptr_np, dec_callFuncDef_np.
 Qed.
 
-Lemma dec_handlerOn_np : forall v, aks v = true -> dec_handlerOn v <> Panic.
+Lemma dec_handlerOn_np : forall v, dec_handlerOn v <> Panic.
+Proof. intros v. apply dec_struct_np. intros m. fields_np; apply dec_ptr_np, dec_stepDef_np. Qed.
+
+Lemma dec_definition_np : forall v, dec_definition v <> Panic.
 Proof.
-  intros v H. apply dec_struct_np; [exact H|]. intros m Hm. fields_np Hm;
-  (apply dec_ptr_np; [apply dec_stepDef_np | apply Hm]).
+  intros v. apply dec_struct_np. intros m. fields_np.
+  - apply dec_ptr_np, dec_int_np.
+  - apply dec_ptr_np, dec_int_np.
+  - apply dec_handlerOn_np.
+  - apply dec_list_np. intros x. apply dec_ptr_np, dec_funcDef_np.
+  - apply dec_list_np. intros x. apply dec_ptr_np, dec_stepDef_np.
+  - apply dec_smtp_np.
+  - apply dec_ptr_np, dec_mailOn_np.
+  - apply dec_mailConfig_np.
+  - apply dec_mailConfig_np.
+  - apply dec_list_np. intros x. apply dec_ptr_np, dec_conditionDef_np.
 Qed.
 
-Lemma dec_definition_np : forall v, aks v = true -> dec_definition v <> Panic.
+(* full statement: decoding any tree never panics *)
+Theorem decode_no_panic : forall root, decode root <> Panic.
 Proof.
-  intros v H. apply dec_struct_np; [exact H|]. intros m Hm. fields_np Hm.
-  - apply dec_ptr_np; [intros; apply dec_int_np | apply Hm].
-  - apply dec_ptr_np; [intros; apply dec_int_np | apply Hm].
-  - apply dec_handlerOn_np, Hm.
-  - apply dec_list_np; [|apply Hm]. intros x Hx. apply dec_ptr_np; [apply dec_funcDef_np | exact Hx].
-  - apply dec_list_np; [|apply Hm]. intros x Hx. apply dec_ptr_np; [apply dec_stepDef_np | exact Hx].
-  - apply dec_smtp_np, Hm.
-  - apply dec_ptr_np; [apply dec_mailOn_np | apply Hm].
-  - apply dec_mailConfig_np, Hm.
-  - apply dec_mailConfig_np, Hm.
-  - apply dec_list_np; [|apply Hm]. intros x Hx. apply dec_ptr_np; [apply dec_conditionDef_np | exact Hx].
+  intros root. unfold decode. destruct (negb (yaml_ok root)); [discriminate|].
+  destruct root; try discriminate;
+    (pose proof (dec_definition_np VNull); pose proof (fun m => dec_definition_np (VMap m));
+     match goal with |- match ?x with _ => _ end <> _ => destruct x eqn:E end; try discriminate; try congruence;
+     try (destruct (no_nil _); discriminate)).
 Qed.
 
-(* F13g excluded: every mapping of the document has string keys only *)
-Theorem decode_no_panic_partial : forall root, all_keys_strings root = true -> decode root <> Panic.
+(* every definition that leaves the decode stage is free of null elements (assertNoNullElements, fix c021988) *)
+Theorem decode_no_nil : forall root d, decode root = Ok d -> no_nil d = true.
 Proof.
-  intros root H. unfold decode. destruct (negb (yaml_ok root)); [discriminate|].
-  destruct root; try discriminate; apply dec_definition_np, H.
+  intros root d. unfold decode. destruct (negb (yaml_ok root)); [discriminate|].
+  destruct root; try discriminate;
+    (match goal with |- match ?x with _ => _ end = _ -> _ => destruct x as [| |d0] end; try discriminate;
+     destruct (no_nil d0) eqn:E; [|discriminate]; intros H; inversion H; subst; exact E).
 Qed.
